@@ -21,7 +21,7 @@ import networkx as nx
 import numpy as np
 from hypothesis import strategies as st
 
-from pbt.core import Part, Outcome, Violation
+from pbt.core import Part, Outcome, Violation, HarnessError
 from pbt.util import capture_logs
 
 from vermouth.forcefield import ForceField
@@ -189,6 +189,9 @@ def _draw_atoms(draw, n_atoms, wide):
     which = _bits(draw(st.integers(0, top)), n_atoms)
     offsets = draw(_ints(-span, span, 3 * n_atoms))
     masses = draw(_ints(1000, 250000, n_atoms))
+    # some atoms weigh nothing (virtual sites, dummy atoms): mass exactly 0
+    massless = _bits(draw(st.integers(0, top)) & draw(st.integers(0, top)) & draw(st.integers(0, top)), n_atoms)
+    masses = [0 if massless[i] else m for i, m in enumerate(masses)]
     atoms = []
     for i in range(n_atoms):
         kind = 'pos' if not missing[i] else ('none' if which[i] else 'nokey')
@@ -244,6 +247,8 @@ def _direct_case(draw):
         'key0': head[6] * 4, 'stride': 1 + head[7] % 3,
         'rot': draw(st.integers(0, 23)),
         'trans': draw(_ints(-30000, 30000, 3)),
+        # how the coordinates are held: float arrays (as read from a file), integer arrays or lists (as typed in by hand)
+        'pos_dtype': draw(st.sampled_from(['float', 'float', 'float', 'int', 'list'])),
     }
 
 
@@ -253,6 +258,17 @@ def _strategy_direct(tier):
 
 def _atom_key(case, index):
     return case['key0'] + case['stride'] * index
+
+
+def _coordinates(case, grid_pos):
+    mode = case.get('pos_dtype', 'float')
+    if mode == 'float':
+        return np.array([c / GRID for c in grid_pos], dtype=float)
+    if any(c % GRID for c in grid_pos):
+        raise HarnessError('integer coordinates requested for a position off the 1 nm grid')
+    if mode == 'int':
+        return np.array([c // GRID for c in grid_pos], dtype=int)
+    return [c // GRID for c in grid_pos]
 
 
 def _build_direct(case):
@@ -268,7 +284,7 @@ def _build_direct(case):
     for index, atom in enumerate(case['atoms']):
         attrs = {'atomname': 'A%d' % index, 'resname': 'XXX', 'resid': 1, 'chain': 'A'}
         if atom['kind'] == 'pos':
-            attrs['position'] = np.array([c / GRID for c in atom['pos']], dtype=float)
+            attrs['position'] = _coordinates(case, atom['pos'])
         elif atom['kind'] == 'none':
             attrs['position'] = None
         if atom['has_mass']:
@@ -409,6 +425,10 @@ def _same(a, b, tol):
 
 
 def _run_direct(case):
+    if case.get('pos_dtype', 'float') != 'float':
+        # whole nanometres only, here and in every variation derived below
+        case = dict(case, atoms=[dict(a, pos=[c * GRID for c in a['pos']]) for a in case['atoms']],
+                    trans=[t * GRID for t in case['trans']])
     call = case['call']
     particles = case['particles']
     use_mass = _uses_mass(call)
@@ -475,6 +495,10 @@ def _run_direct(case):
     if call['weight'] is False and call['center'] == 'mass' and call['via'] != 'function':
         classes.append('weight-False-overrides-center_weight')
     classes.append('via-' + call['via'])
+    if case.get('pos_dtype', 'float') != 'float':
+        classes.append('coordinates-held-as-' + case['pos_dtype'])
+    if use_mass and any(case['atoms'][i]['has_mass'] and case['atoms'][i]['mass'] == 0 for i in used_atoms):
+        classes.append('massless-atom-in-mass-weighted-particle')
     if call.get('warm') and call['via'] != 'function':
         classes.append('processor-object-used-before')
     kinds = {case['atoms'][i]['kind'] for i in used_atoms}
